@@ -91,6 +91,7 @@ def mk_np1():
 
 def build(U, NP=None):
     from collections.abc import Iterable
+    U.assume_ensures = False
     NP = NP or mk_np1()
     g = dict(np=NP, pyfftw=_pyfftw(), PYFFTW_IMPORTED=True, time=_time.time, warnings=_warnings, print=lambda *a, **k: None, Iterable=Iterable)
     g["cached_einsum"] = U.fn(F_UT, "cached_einsum", globs=dict(np=NP, EINSUM_PATH_CACHE={}), model=False, rewrite_comps=False)
